@@ -141,6 +141,36 @@ def run(oc, tier, seed, model_available, escalate):
                                       "impl": {str(k_): (v[0], v[1]) for k_, v in results.items()},
                                       "what": "codecs 1-3 do not verify/repair identically with ecc produced by one another"})
             oc.count("cross-codec correction scenarios")
+            # the ecc file itself damaged beyond repair in one place (the parity of one entry's path, or one stored block hash): every codec
+            # must report it and carry on alike - same exit status, same counters, same files written
+            data3 = bytearray(open(os.path.join(d, "ecc_3_orig.txt"), "rb").read())
+            bnds = eu.entry_bounds(bytes(data3))
+            if bnds and not eu.accidental(bytes(data3), len(tree)):
+                fe = eu.parse_entry(bytes(data3), *rng.choice(bnds))
+                what = rng.choice(["path_ecc", "hash"])
+                if what == "path_ecc":
+                    a_, b_ = fe["path_ecc"]
+                    for q in range(a_, b_):
+                        data3[q] = rng.choice([0x41, 0x7e, 0x33, 0xc3])
+                else:
+                    a_ = fe["track"][0]
+                    if a_ < fe["track"][1]:
+                        data3[a_] ^= 0x21
+                if not eu.accidental(bytes(data3), len(tree)):
+                    e3 = os.path.join(d, "ecc_damaged.txt")
+                    open(e3, "wb").write(bytes(data3))
+                    res2 = {}
+                    for ca in (1, 2, 3):
+                        Pc = eu.Params(**{**P0.describe(), "algo": ca})
+                        rc, stats, out, _ = eu.correct(Pc, droot, e3, os.path.join(d, "out"))
+                        res2[ca] = (rc, stats, tuple(sorted((p, v) for p, v in out.items())))
+                    oc.oracle_cases += 1
+                    if len(set(res2.values())) > 1 or any(v[0].startswith("exception") for v in res2.values()):
+                        oc.violations.append({"input": {"params": P0.describe(), "victim": victim, "ecc_damage": what,
+                                                        "tree": {p: c.hex() for p, c in tree.items()}, "ecc": bytes(data3).hex()},
+                                              "impl": {str(k_): (v[0], v[1]) for k_, v in res2.items()},
+                                              "what": "codecs 1-3 do not handle an ecc file damaged beyond repair in its %s alike" % what})
+                    oc.count("cross-codec: ecc file damaged in %s" % what)
         oc.distinct.add(("tool", i, tool))
     shutil.rmtree(d, ignore_errors=True)
     if f20_seen:
